@@ -1,11 +1,16 @@
 SPECIFICATION Spec
 CONSTANTS
-  Threads = {"r1", "r2", "r3"}
+  Threads = {"r1", "r2", "r3", "r4"}
   Names = {"n1", "n2", "n3"}
   PeerSnl <- Peer3
-  MaxCalls = 2
+  NameLen <- Len3
+  SendMiu = 12
+  PopHead = FALSE
+  MaxCalls = 1
   WakeCheck = TRUE
 INVARIANT ResolveReturns
 INVARIANT NoLostWakeup
 INVARIANT RequestOut
+INVARIANT Recorded
+INVARIANT SnlFits
 CHECK_DEADLOCK FALSE
